@@ -1010,6 +1010,10 @@ func leLen(v, base ssa.Value, b *ssa.BasicBlock, inProgress map[ssa.Value]bool, 
 	if k, ok := constInt(v); ok {
 		return k == 0 || lenAtLeast(b, base, k)
 	}
+	// len(base) itself
+	if c, ok := v.(*ssa.Call); ok && isLenOf(c, nil) && (stripConv(c.Call.Args[0]) == stripConv(base) || sameObj(c.Call.Args[0], base)) {
+		return true
+	}
 	// g(base) where g returns at most the length of its argument (the length of a scanned prefix)
 	if c, ok := v.(*ssa.Call); ok {
 		if g := staticCallee(c); g != nil && inRepo(g) && len(g.Params) == 1 && len(c.Call.Args) == 1 && stripConv(c.Call.Args[0]) == stripConv(base) && returnsLeLenOfParam(g) {
